@@ -72,6 +72,20 @@ func (w *World) verifyFn(key string, opt Options) (res *FnResult) {
 		return
 	}
 	res.Mode = con.Mode
+	var aliasFrom *ssa.Function
+	if con.SameAs != "" {
+		tcon := w.Contracts[con.SameAs]
+		tfn := w.Funcs[con.SameAs]
+		if tcon == nil || tfn == nil {
+			res.Err = "sameas target " + con.SameAs + " has no contract"
+			res.EngineErr = true
+			return
+		}
+		eff := *con
+		eff.Requires, eff.Ensures, eff.Modifies = tcon.Requires, tcon.Ensures, tcon.Modifies
+		con = &eff
+		aliasFrom = tfn
+	}
 	x := &Exec{w: w, cx: newCx(w, con.Mode == "bv"), fn: fn, key: key, con: con, vars: collectVars(fn), maxPaths: 3000, entryPar: map[string]Val{}}
 	defer func() {
 		res.WallMS = time.Since(t0).Milliseconds()
@@ -105,6 +119,10 @@ func (w *World) verifyFn(key string, opt Options) (res *FnResult) {
 			x.notePtr(st, structName(pt.Elem()), n)
 			if i == 0 && fn.Signature.Recv() != nil {
 				x.assume(st, fmt.Sprintf("(not (= %s %s))", n, cx.num(0)))
+				if st.nonnil == nil {
+					st.nonnil = map[string]bool{}
+				}
+				st.nonnil[n] = true
 			}
 		}
 	}
@@ -119,6 +137,13 @@ func (w *World) verifyFn(key string, opt Options) (res *FnResult) {
 		x.entryPar[fv.Name()] = Val{S: fmt.Sprintf("(select %s@0 %s)", key, n), T: et}
 		x.notePtr(st, key, n)
 	}
+	if aliasFrom != nil {
+		for i, p := range aliasFrom.Params {
+			if i < len(fn.Params) {
+				x.entryPar[p.Name()] = x.entryPar[fn.Params[i].Name()]
+			}
+		}
+	}
 	// modifies
 	for _, m := range con.Modifies {
 		if m == "*" {
@@ -128,6 +153,15 @@ func (w *World) verifyFn(key string, opt Options) (res *FnResult) {
 		x.modSet = append(x.modSet, x.evalMod(st, m, x.entryPar, con)...)
 	}
 	x.buildProbes(st)
+	if fn.Name() == "init" {
+		cx.inInit = true
+		// package initialisation establishes the global invariants of its package
+		if g := w.Contracts[con.Pkg+".#global"]; g != nil {
+			con.Ensures = append(append([]*Clause{}, con.Ensures...), g.Ensures...)
+		}
+	} else {
+		x.assumeGlobals(st)
+	}
 	env := x.envFor(st, nil, con.Pkg, x.entryPar)
 	for _, cl := range con.Requires {
 		x.assume(st, x.clauseTerm(st, cl, env))
@@ -617,5 +651,33 @@ func (x *Exec) buildProbes(st *State) {
 			}
 		}
 		addVal(p.Name(), v.S, p.Type(), 0)
+	}
+}
+
+// assumeGlobals assumes the global invariants of the packages the unit's package imports (and its own).
+// Sound because the variables are never assigned after initialisation (scanGlobalStores) and the contents of
+// the objects they point to are outside every modifies clause (frame checks).
+func (x *Exec) assumeGlobals(st *State) {
+	pkg := x.w.Pkgs[x.con.Pkg]
+	for _, k := range sortedKeys(x.w.Contracts) {
+		if !strings.HasSuffix(k, ".#global") {
+			continue
+		}
+		g := x.w.Contracts[k]
+		if g.Pkg != x.con.Pkg {
+			imp := false
+			for path := range pkg.Imports {
+				if shortPkg(path) == g.Pkg {
+					imp = true
+				}
+			}
+			if !imp {
+				continue
+			}
+		}
+		env := x.envFor(st, nil, g.Pkg, map[string]Val{})
+		for _, cl := range g.Ensures {
+			x.assume(st, x.clauseTerm(st, cl, env))
+		}
 	}
 }
